@@ -1,6 +1,7 @@
 package main
 
 import (
+	"encoding/json"
 	"crypto/sha256"
 	"encoding/hex"
 	"fmt"
@@ -140,14 +141,16 @@ func safe(f func() map[string]any) (m map[string]any) {
 func subj4(p *dhcpv4.DHCPv4) subject {
 	return subject{proto: "v4",
 		obs: func() map[string]any {
-			return map[string]any{"a": "Obs", "enc": B(p.ToBytes()), "val": proj4(p), "str": hs(p.Summary() + p.String())}
+			val, str := proj4(p), hs(p.Summary()+p.String()) // read before this observation's own encoding
+			return map[string]any{"a": "Obs", "enc": B(p.ToBytes()), "val": val, "str": str}
 		},
 		recv: []reflect.Value{reflect.ValueOf(p)}, enc: p.ToBytes}
 }
 func subj6(d dhcpv6.DHCPv6) subject {
 	s := subject{proto: "v6",
 		obs: func() map[string]any {
-			return map[string]any{"a": "Obs", "enc": B(d.ToBytes()), "val": proj6(d), "str": hs(d.Summary() + d.String())}
+			val, str := proj6(d), hs(d.Summary()+d.String()) // read before this observation's own encoding
+			return map[string]any{"a": "Obs", "enc": B(d.ToBytes()), "val": val, "str": str}
 		},
 		recv: []reflect.Value{reflect.ValueOf(d)}, enc: d.ToBytes}
 	if m, ok := d.(*dhcpv6.Message); ok {
@@ -164,7 +167,19 @@ func subj6(d dhcpv6.DHCPv6) subject {
 func subjOpt6(o dhcpv6.Option) subject {
 	return subject{proto: "opt6",
 		obs: func() map[string]any {
-			return map[string]any{"a": "Obs", "enc": B(o.ToBytes()), "val": projOpt(o, "main"), "str": hs(o.String())}
+			val, str := projOpt(o, "main"), hs(o.String()) // read before this observation's own encoding
+			return map[string]any{"a": "Obs", "enc": B(o.ToBytes()), "val": val, "str": str}
+		},
+		recv: []reflect.Value{reflect.ValueOf(o)}, enc: o.ToBytes}
+}
+
+// subjOpt6Big: an option whose value is too large to log; the observation carries fingerprints
+func subjOpt6Big(o dhcpv6.Option) subject {
+	return subject{proto: "opt6",
+		obs: func() map[string]any {
+			vb, _ := json.Marshal(projOpt(o, "main"))
+			val, str := hs(string(vb)), hs(o.String())
+			return map[string]any{"a": "Obs", "enc": B(o.ToBytes()), "val": val, "str": str}
 		},
 		recv: []reflect.Value{reflect.ValueOf(o)}, enc: o.ToBytes}
 }
@@ -439,6 +454,22 @@ func genC20(o *Out, rng *rand.Rand, tier string) {
 	}
 	for k := 0; k < 120; k++ {
 		exhaustive(func(r *rand.Rand) subject { return subjOpt4(standalone4(r)) }, "standalone-opt4-every-method")
+	}
+	// values at and beyond what their wire field can carry (the encoder's treatment of them must not change them)
+	for k := 0; k < 3; k++ {
+		kk := k
+		exhaustive(func(r *rand.Rand) subject {
+			big := string(make([]byte, 65536+kk))
+			return subjOpt6Big(dhcpv6.OptBootFileParam([][]string{{"a", big, "b", "c"}, {big, "x"}, {"p", "q", big, big, "r"}}[kk]...))
+		}, "oversized-values")
+		exhaustive(func(r *rand.Rand) subject {
+			p := randPacket4(r, 2, []int{0, 1, 4, 8})
+			if p.Options == nil {
+				p.Options = dhcpv4.Options{}
+			}
+			p.ClientHWAddr = randBytes(r, []int{17, 20, 32}[kk]) // longer than the 16-byte field (IP over InfiniBand: 20)
+			return subj4(p)
+		}, "oversized-values")
 	}
 	for k := 0; k < 6; k++ {
 		exhaustive(func(r *rand.Rand) subject {
